@@ -15,17 +15,6 @@ Definition comp_eqb (a b : comp) : bool :=
 
 Definition slash : ascii := "/"%char.
 
-Fixpoint split_on (sep : ascii) (s : string) : list string :=
-  match s with
-  | EmptyString => [EmptyString]
-  | String c r =>
-      if Ascii.eqb c sep then EmptyString :: split_on sep r
-      else match split_on sep r with
-           | l :: ls => String c l :: ls
-           | [] => [String c EmptyString]
-           end
-  end.
-
 Definition is_absolute (s : string) : bool :=
   match s with String c _ => Ascii.eqb c slash | EmptyString => false end.
 
